@@ -248,6 +248,8 @@ template<typename... Args> void bfs(int maxobs, uint64_t &states, uint64_t &tran
     }
 }
 
+void c05_reentrant_part();
+extern bool g_delivery_only;
 void explore_c05() {
     int maxobs = thorough() ? 3 : 2;     // live observers at a time (3 handle slots; removed observers make room for new ones)
     uint64_t &states = shm->states, &trans = shm->transitions, &nontrivial = shm->nontrivial;
@@ -255,12 +257,16 @@ void explore_c05() {
     bfs<int>(maxobs, states, trans, nontrivial);
     bfs<const std::string &>(maxobs, states, trans, nontrivial);
     bfs<std::string, int>(maxobs, states, trans, nontrivial);
+    c05_reentrant_part();
     shm->validated = trans;
-    sx::detail(fmt("breadth-first search to fixpoint per signature (void with up to 3 live observers; int, const std::string&, (std::string,int) with up to %d), 3 handle slots, ids rank-normalised in the state key", maxobs));
+    sx::detail(fmt("breadth-first search to fixpoint per signature (void with up to 3 live observers; int, const std::string&, (std::string,int) with up to %d), 3 handle slots, ids rank-normalised in the state key; "
+                   "plus notify calls made from inside callbacks (1 observer x <= 3 actions, 2 x <= 2, 3 x <= 1 per callback, two rounds): every such call, too, must reach exactly the observers that are subscribed, valid and unmuted when it is made, once each, in order", maxobs));
 }
 
+void replay_c10(const std::string &hist);
 void replay_c05(const std::string &hist) {
     char sig[64]; int maxobs;
+    if (hist.compare(0, 10, "reentrant ") == 0) { g_delivery_only = true; replay_c10(hist); return; }
     if (sscanf(hist.c_str(), "sig=%63s maxobs=%d :", sig, &maxobs) != 2) { violation("replay:parse", "cannot parse " + hist); return; }
     std::vector<Op> h;
     if (!parse_ops(hist.substr(hist.find(':') + 1), h)) { violation("replay:parse", "cannot parse ops in " + hist); return; }
@@ -363,6 +369,7 @@ std::string cfg_str(int n, unsigned mutemask, const std::vector<Script> &scripts
     return s;
 }
 
+bool g_delivery_only = false;       // the C05 run judges deliveries only (memory safety and observer lifetimes under re-entrancy are C10's)
 void run_config(int n, unsigned mutemask, const std::vector<Script> &scripts) {
     RSys sys; sys.subject = std::make_unique<Subject<int>>(); sys.scripts = scripts;
     sys.handles.reserve(4096); sys.destroyed.reserve(4096);
@@ -378,6 +385,7 @@ void run_config(int n, unsigned mutemask, const std::vector<Script> &scripts) {
         std::string l; for (auto &c : sys.log) l += fmt("%d@%d/r%d ", c.first, c.second, c.round);
         violation("reentrant:round-semantics", ref.err + "; call log (observer@depth/notify serial): " + l);
     }
+    if (g_delivery_only) { sys.subject.reset(); return; }      // (the observers' tokens write into sys.destroyed: the Subject goes first)
     // consistency afterwards: handles agree with the model, subject still usable
     if (sys.handles.size() >= 4096) violation("harness:too-many-observers", "more than 4096 observers were created; raise the reservation");
     for (size_t i = 0; i < ref.obs.size() && i < sys.handles.size(); i++)
@@ -439,6 +447,37 @@ void explore_c10() {
     shm->validated = shm->evaluations;
     sx::detail("every assignment of an action LIST per callback (actions: subscribe a new observer, nested notify up to depth 2, unsubscribe/mute/unmute/invalidate any target incl. itself; performed in order on every invocation) for the shapes " + shape_txt +
                "; two consecutive rounds each, every initial mute mask where unmute is used; observer objects must be destroyed exactly when they leave; states = configurations, transitions = rounds");
+}
+
+// C05: a notify() issued from inside a callback is a notify call like any other.  The enumeration runs in a child of its own so that a crash is attributed to the
+// configuration in flight.
+void c05_reentrant_part() {
+    fflush(stdout); fflush(stderr);
+    pid_t pid = fork();
+    if (pid == 0) {
+        g_delivery_only = true;
+        for (auto [n, len] : std::vector<std::pair<int, int>>{{1, 3}, {2, 2}, {3, 1}}) {
+            auto opts = scripts_upto(n, len);
+            std::vector<size_t> idx(n, 0);
+            for (;;) {
+                std::vector<Script> scripts; for (int i = 0; i < n; i++) scripts.push_back(opts[idx[i]]);
+                bool uses_unmute = false, has_notify = false; for (auto &sc : scripts) for (auto &a : sc) { uses_unmute |= a.act == A_UNMUTE; has_notify |= a.act == A_NOTIFY; }
+                if (has_notify) for (unsigned mask = 0; mask < (uses_unmute ? 1u << n : 1u); mask++) {
+                    if (deadline_passed()) { shm->exhaustive = 0; _exit(0); }
+                    mark(cfg_str(n, mask, scripts));
+                    run_config(n, mask, scripts);
+                    shm->evaluations++; shm->transitions += 2; shm->nontrivial++;
+                }
+                int i = 0; while (i < n && ++idx[i] == opts.size()) idx[i++] = 0;
+                if (i >= n) break;
+            }
+        }
+        _exit(0);
+    }
+    int st; waitpid(pid, &st, 0);
+    // a crash in the middle of a legal history (a notify made from a callback) leaves nothing of "every observer exactly once" either
+    if (!(WIFEXITED(st) && WEXITSTATUS(st) == 0))
+        violation("crash", WIFSIGNALED(st) ? fmt("crash: killed by signal %d during a notify() made from inside a callback (see the replay for the sanitizer report)", WTERMSIG(st)) : fmt("crash: exit status %d", WEXITSTATUS(st)), shm->marker);
 }
 
 void replay_c10(const std::string &hist) {
